@@ -337,6 +337,8 @@ def runLine (r : Report) (sec : Nat) (l : Line) : Report := Id.run do
     return r
   let some res := (if resS = "ok" then some (.err .noOutput) else parseRes resS)
     | return r.violation sec l.idx s!"outcome {resS} is neither a cancel/context error, a user panic nor a value op=[{opS}]"
+  if run.api ≠ "mr" ∧ run.api ≠ "chan" ∧ (resS = "err:noout" ∨ resS.startsWith "val:") then
+    r := r.violation sec l.idx s!"{run.api} returned {resS}: ErrReduceNoOutput must become nil and there is no value op=[{opS}]"
   if ¬ allowed c res then
     r := r.violation sec l.idx s!"outcome {resS} is not in the returned-error table of this call op=[{opS}]"
   -- the table for the schedule that actually happened
@@ -409,8 +411,57 @@ def runLine (r : Report) (sec : Nat) (l : Line) : Report := Id.run do
   else r := r.addCover "outcome-not-among-sampled-model-schedules"
   return r
 
+/-! ### errorx.AtomicError on its own (second harness): `ae set|load|cset <inst> …` -/
+
+def showCell : Option Nat → String
+  | none => "nil"
+  | some k => s!"E{k}"
+
+def parseCell (s : String) : Option (Option Nat) :=
+  if s = "nil" then some none else match s.toList with
+    | 'E' :: d => (String.ofList d).toNat?.map some
+    | _ => none
+
+abbrev Cells := List (String × Option Nat)
+
+def cellGet (cs : Cells) (n : String) : Option Nat := ((cs.find? (·.1 = n)).map (·.2)).getD none
+def cellPut (cs : Cells) (n : String) (v : Option Nat) : Cells := (n, v) :: cs.filter (·.1 ≠ n)
+
+def runAe (st : Report × Cells) (sec : Nat) (l : Line) : Report × Cells := Id.run do
+  let mut r := { st.1 with ops := st.1.ops + 1 }
+  let cs := st.2
+  let opS := joinSp l.op
+  match l.op, l.obs with
+  | ["ae", "set", n, k], [o] =>
+    let some k := k.toNat? | return (r.mismatch sec l.idx "bad-op" opS, cs)
+    if o ≠ "ok" then return (r.violation sec l.idx s!"AtomicError.Set({k}) => {o} op=[{opS}]", cs)
+    r := r.addCover (if k = 0 then (if (cellGet cs n).isSome then "ae-set-nil-after-error" else "ae-set-nil-on-empty") else
+      (if (cellGet cs n).isSome then "ae-set-overwrites" else "ae-set-first"))
+    return (r, cellPut cs n (aeSet (cellGet cs n) (if k = 0 then none else some k)))
+  | ["ae", "load", n], [o] =>
+    let some v := parseCell o | return (r.violation sec l.idx s!"AtomicError.Load() => {o}: neither nil nor an error that was set op=[{opS}]", cs)
+    let m := aeLoad (cellGet cs n)
+    r := r.addCover (if m.isSome then "ae-load-error" else "ae-load-nil")
+    if cs.length > 1 then r := r.addCover "ae-several-instances"
+    if v ≠ m then
+      r := r.violation sec l.idx s!"AtomicError: Load() = {o}, but the last non-nil error set on this instance is {showCell m} (a recorded error must be returned, Set(nil) must not erase it, instances are independent) op=[{opS}]"
+    return (r, cs)
+  | "ae" :: "cset" :: n :: ks, [o] =>
+    let some ks := ks.mapM (·.toNat?) | return (r.mismatch sec l.idx "bad-op" opS, cs)
+    let some v := parseCell o | return (r.violation sec l.idx s!"AtomicError.Load() => {o} op=[{opS}]", cs)
+    r := r.addCover "ae-concurrent-sets"
+    match v with
+    | some k =>
+      if ¬ ks.contains k ∨ k = 0 then
+        r := r.violation sec l.idx s!"AtomicError: Load() = {o} after concurrent Set calls with {showNats ks}: not one of them op=[{opS}]"
+    | none => r := r.violation sec l.idx s!"AtomicError: Load() = nil after concurrent Set calls with non-nil errors op=[{opS}]"
+    return (r, cellPut cs n v)
+  | _, _ => return (r.mismatch sec l.idx "bad-op" (opS ++ " => " ++ joinSp l.obs), cs)
+
 def runSection (r : Report) (s : Section) : Report :=
-  s.lines.foldl (fun r l => runLine r s.idx l) r
+  if s.lines.all (fun l => l.op.head? = some "ae") ∧ ¬ s.lines.isEmpty then
+    (s.lines.foldl (fun st l => runAe st s.idx l) (r, [])).1
+  else s.lines.foldl (fun r l => runLine r s.idx l) r
 
 def driver (secs : List Section) : Report := secs.foldl runSection {}
 
